@@ -158,7 +158,7 @@ fn neighbourhood(signed: bool, bits: u32) -> Vec<String> {
 
 pub fn run(tier: Tier, rep: &mut Report) -> (String, String) {
     let th = n_threads(tier);
-    let n = tier.pick(4, 5, 2);
+    let n = tier.pick(5, 6, 2);
     let small = strings_over(&["0", "1", "2", "9", "-", "+", "a", " ", "٣"], n);
     let suffixes: &[&str] = &["", "x", "-", "0a", " 1", "9", "ñ"];
     // every value of the 8- and 16-bit types, canonical and decorated
